@@ -50,7 +50,18 @@ type Pat struct {
 
 type Val struct{ N, V string }
 
+// Step is one operation built on the case's Runtime; a case is a history of builds on ONE Runtime.
+type Step struct {
+	Pat    Pat
+	Vals   []Val
+	CQ     []KV
+	OS     []string
+	Orders [][]int
+	Reps   int
+}
+
 type Case struct {
+	Steps  []Step // when empty, the single step is given by Pat/Vals/CQ/OS/Orders/Reps below
 	Base   Base
 	Pat    Pat
 	Vals   []Val
@@ -82,9 +93,9 @@ func kvFrom(v any) []KV {
 	return out
 }
 
-func (c Case) JSON() M {
-	segs := make([][]M, 0, len(c.Pat.Segs))
-	for _, s := range c.Pat.Segs {
+func (st Step) JSON() M {
+	segs := make([][]M, 0, len(st.Pat.Segs))
+	for _, s := range st.Pat.Segs {
 		ts := make([]M, 0, len(s))
 		for _, t := range s {
 			k := "lit"
@@ -95,24 +106,35 @@ func (c Case) JSON() M {
 		}
 		segs = append(segs, ts)
 	}
-	vals := make([]M, 0, len(c.Vals))
-	for _, v := range c.Vals {
+	vals := make([]M, 0, len(st.Vals))
+	for _, v := range st.Vals {
 		vals = append(vals, M{"n": trace.B(v.N), "v": trace.B(v.V)})
 	}
-	orders := c.Orders
+	orders := st.Orders
 	if orders == nil {
 		orders = [][]int{}
 	}
+	return M{"pat": M{"trailing": st.Pat.Trailing, "segs": segs, "query": kvJSON(st.Pat.Query)},
+		"vals": vals, "cq": kvJSON(st.CQ), "os": trace.S(st.OS), "orders": orders, "reps": st.Reps}
+}
+
+func (c Case) steps() []Step {
+	if len(c.Steps) > 0 {
+		return c.Steps
+	}
+	return []Step{{Pat: c.Pat, Vals: c.Vals, CQ: c.CQ, OS: c.OS, Orders: c.Orders, Reps: c.Reps}}
+}
+
+func (c Case) JSON() M {
+	steps := make([]M, 0)
+	for _, st := range c.steps() {
+		steps = append(steps, st.JSON())
+	}
 	return M{
-		"base":   M{"lead": c.Base.Lead, "trailing": c.Base.Trailing, "segs": trace.BB(c.Base.Segs), "query": kvJSON(c.Base.Query)},
-		"pat":    M{"trailing": c.Pat.Trailing, "segs": segs, "query": kvJSON(c.Pat.Query)},
-		"vals":   vals,
-		"cq":     kvJSON(c.CQ),
-		"rs":     trace.S(c.RS),
-		"os":     trace.S(c.OS),
-		"host":   c.Host,
-		"orders": orders,
-		"reps":   c.Reps,
+		"base":  M{"lead": c.Base.Lead, "trailing": c.Base.Trailing, "segs": trace.BB(c.Base.Segs), "query": kvJSON(c.Base.Query)},
+		"rs":    trace.S(c.RS),
+		"host":  c.Host,
+		"steps": steps,
 	}
 }
 
@@ -124,37 +146,42 @@ func caseFrom(d M) Case {
 		c.Base.Segs = append(c.Base.Segs, trace.Str(s))
 	}
 	c.Base.Query = kvFrom(b["query"])
-	p := drv.Map(d["pat"])
-	c.Pat.Trailing = drv.Bool(p["trailing"])
-	for _, s := range drv.List(p["segs"]) {
-		var seg []Tok
-		for _, t := range drv.List(s) {
-			m := drv.Map(t)
-			seg = append(seg, Tok{Ph: drv.Str(m["k"]) == "ph", S: trace.Str(m["s"])})
-		}
-		c.Pat.Segs = append(c.Pat.Segs, seg)
-	}
-	c.Pat.Query = kvFrom(p["query"])
-	for _, v := range drv.List(d["vals"]) {
-		m := drv.Map(v)
-		c.Vals = append(c.Vals, Val{N: trace.Str(m["n"]), V: trace.Str(m["v"])})
-	}
-	c.CQ = kvFrom(d["cq"])
 	for _, s := range drv.List(d["rs"]) {
 		c.RS = append(c.RS, drv.Str(s))
 	}
-	for _, s := range drv.List(d["os"]) {
-		c.OS = append(c.OS, drv.Str(s))
-	}
 	c.Host = drv.Str(d["host"])
-	for _, o := range drv.List(d["orders"]) {
-		var ord []int
-		for _, i := range drv.List(o) {
-			ord = append(ord, drv.Int(i))
+	for _, sv := range drv.List(d["steps"]) {
+		sm := drv.Map(sv)
+		var st Step
+		p := drv.Map(sm["pat"])
+		st.Pat.Trailing = drv.Bool(p["trailing"])
+		for _, s := range drv.List(p["segs"]) {
+			var seg []Tok
+			for _, t := range drv.List(s) {
+				m := drv.Map(t)
+				seg = append(seg, Tok{Ph: drv.Str(m["k"]) == "ph", S: trace.Str(m["s"])})
+			}
+			st.Pat.Segs = append(st.Pat.Segs, seg)
 		}
-		c.Orders = append(c.Orders, ord)
+		st.Pat.Query = kvFrom(p["query"])
+		for _, v := range drv.List(sm["vals"]) {
+			m := drv.Map(v)
+			st.Vals = append(st.Vals, Val{N: trace.Str(m["n"]), V: trace.Str(m["v"])})
+		}
+		st.CQ = kvFrom(sm["cq"])
+		for _, s := range drv.List(sm["os"]) {
+			st.OS = append(st.OS, drv.Str(s))
+		}
+		for _, o := range drv.List(sm["orders"]) {
+			var ord []int
+			for _, i := range drv.List(o) {
+				ord = append(ord, drv.Int(i))
+			}
+			st.Orders = append(st.Orders, ord)
+		}
+		st.Reps = drv.Int(sm["reps"])
+		c.Steps = append(c.Steps, st)
 	}
-	c.Reps = drv.Int(d["reps"])
 	return c
 }
 
@@ -238,22 +265,21 @@ type obs struct {
 	pnc    bool
 }
 
-func build(c Case, order []int) (o obs) {
+func build(rt *client.Runtime, st Step, order []int) (o obs) {
 	defer func() {
 		if e := recover(); e != nil {
 			o = obs{err: true, pnc: true}
 		}
 	}()
-	rt := client.New(c.Host, c.Base.String(), c.RS)
 	op := &runtime.ClientOperation{
-		ID: "op", Method: "GET", PathPattern: c.Pat.String(), Schemes: c.OS,
+		ID: "op", Method: "GET", PathPattern: st.Pat.String(), Schemes: st.OS,
 		Params: runtime.ClientRequestWriterFunc(func(r runtime.ClientRequest, _ strfmt.Registry) error {
 			for _, i := range order {
-				if err := r.SetPathParam(c.Vals[i].N, c.Vals[i].V); err != nil {
+				if err := r.SetPathParam(st.Vals[i].N, st.Vals[i].V); err != nil {
 					return err
 				}
 			}
-			for _, q := range c.CQ {
+			for _, q := range st.CQ {
 				if err := r.SetQueryParam(q.K, q.Vs...); err != nil {
 					return err
 				}
@@ -268,38 +294,55 @@ func build(c Case, order []int) (o obs) {
 	return obs{scheme: req.URL.Scheme, host: req.URL.Host, path: req.URL.EscapedPath(), rawq: req.URL.RawQuery}
 }
 
+// execute builds the whole history on ONE Runtime, as an application does.
 func execute(c *drv.Ctx, d M) bool {
 	cs := caseFrom(d)
-	orders := cs.Orders
-	if len(orders) == 0 {
-		orders = [][]int{{}}
-	}
-	var seen []obs
-	var count []int
-	for _, ord := range orders {
-		for r := 0; r < cs.Reps; r++ {
-			o := build(cs, ord)
-			found := false
-			for i := range seen {
-				if seen[i] == o {
-					count[i]++
-					found = true
-					break
+	var rt *client.Runtime
+	func() {
+		defer func() { _ = recover() }()
+		rt = client.New(cs.Host, cs.Base.String(), cs.RS)
+	}()
+	nt := false
+	for si, st := range cs.Steps {
+		orders := st.Orders
+		if len(orders) == 0 {
+			orders = [][]int{{}}
+		}
+		reps := st.Reps
+		if reps < 1 {
+			reps = 1
+		}
+		var seen []obs
+		var count []int
+		for _, ord := range orders {
+			for r := 0; r < reps; r++ {
+				o := obs{err: true, pnc: true}
+				if rt != nil {
+					o = build(rt, st, ord)
+				}
+				found := false
+				for i := range seen {
+					if seen[i] == o {
+						count[i]++
+						found = true
+						break
+					}
+				}
+				if !found {
+					seen = append(seen, o)
+					count = append(count, 1)
 				}
 			}
-			if !found {
-				seen = append(seen, o)
-				count = append(count, 1)
-			}
 		}
+		out := make([]M, 0, len(seen))
+		for i, o := range seen {
+			out = append(out, M{"err": o.err, "panic": o.pnc, "scheme": o.scheme, "host": o.host,
+				"path": trace.B(o.path), "rawq": trace.B(o.rawq), "n": count[i]})
+		}
+		c.W.Event("url", M{"step": si + 1, "obs": out})
+		nt = nt || nontrivial(cs, st)
 	}
-	out := make([]M, 0, len(seen))
-	for i, o := range seen {
-		out = append(out, M{"err": o.err, "panic": o.pnc, "scheme": o.scheme, "host": o.host,
-			"path": trace.B(o.path), "rawq": trace.B(o.rawq), "n": count[i]})
-	}
-	c.W.Event("url", M{"obs": out})
-	return nontrivial(cs)
+	return nt
 }
 
 func needsEscape(v string) bool {
@@ -317,22 +360,22 @@ func needsEscape(v string) bool {
 
 // non-trivial: a substituted value needs escaping / is empty or a dot segment, or a query
 // key is fixed at two levels, or several schemes are offered.
-func nontrivial(c Case) bool {
+func nontrivial(c Case, st Step) bool {
 	used := map[string]bool{}
-	for _, s := range c.Pat.Segs {
+	for _, s := range st.Pat.Segs {
 		for _, t := range s {
 			if t.Ph {
 				used[t.S] = true
 			}
 		}
 	}
-	for _, v := range c.Vals {
+	for _, v := range st.Vals {
 		if used[v.N] && needsEscape(v.V) {
 			return true
 		}
 	}
 	lv := map[string]int{}
-	for _, q := range [][]KV{c.Base.Query, c.Pat.Query, c.CQ} {
+	for _, q := range [][]KV{c.Base.Query, st.Pat.Query, st.CQ} {
 		seen := map[string]bool{}
 		for _, e := range q {
 			if !seen[e.K] {
@@ -348,7 +391,7 @@ func nontrivial(c Case) bool {
 	}
 	off := c.RS
 	if len(off) == 0 {
-		off = c.OS
+		off = st.OS
 	}
 	return len(off) > 1
 }
@@ -529,6 +572,48 @@ func generate(c *drv.Ctx) {
 			nExh++
 		}
 	}
+	// (iii-b) histories: several operations built one after the other on ONE Runtime.
+	// schemes: every runtime list of a small pool x every sequence of 2..3 operation scheme lists
+	opLists := [][]string{nil, {"http"}, {"https"}, {"http", "https"}, {"ws", "wss", "https"}, {"ws"}, {"ws", "http"}}
+	rtLists := [][]string{nil, {"http"}, {"ws", "https"}}
+	one := []Val{{"a", "v"}}
+	for _, rs := range rtLists {
+		for _, o1 := range opLists {
+			for _, o2 := range opLists {
+				for _, o3 := range append([][]string{{"-"}}, opLists...) {
+					cs := Case{Base: Base{Lead: true}, RS: rs, Host: "h:1"}
+					for _, os := range [][]string{o1, o2, o3} {
+						if len(os) == 1 && os[0] == "-" {
+							continue
+						}
+						cs.Steps = append(cs.Steps, Step{Pat: simple, Vals: one, OS: os, Orders: [][]int{{0}}, Reps: 1})
+					}
+					c.Case(cs.JSON())
+					nExh++
+				}
+			}
+		}
+	}
+	// paths and queries: the same and different templates, values and caller queries in sequence under one base path
+	hp := []Pat{simple, {Segs: [][]Tok{lit("x"), ph("a")}, Trailing: true}, {Segs: [][]Tok{lit("c\u00e9"), ph("a"), ph("b")}},
+		{Segs: [][]Tok{ph("b"), lit("x")}, Query: []KV{{"k", []string{"p"}}}}, {}}
+	hv := [][]Val{{{"a", "v"}, {"b", "w"}}, {{"a", "a/b"}, {"b", "{a}"}}, {{"a", ""}, {"b", ".."}}, {{"a", "x y?#"}, {"b", "%2F"}}}
+	hq := [][]KV{nil, {{"k", []string{"c"}}}, {{"q", []string{"1", "2"}}}}
+	for bi, b := range basePool {
+		for i1 := range hp {
+			for i2 := range hp {
+				cs := Case{Base: b, Host: "h:1"}
+				if bi%2 == 0 {
+					cs.Base.Query = []KV{{"k", []string{"b"}}, {"z", []string{"9"}}}
+				}
+				for k, pi := range []int{i1, i2, i1} {
+					cs.Steps = append(cs.Steps, Step{Pat: hp[pi], Vals: hv[(i1+i2+k)%len(hv)], CQ: hq[(i1+k)%len(hq)], Orders: both, Reps: reps})
+				}
+				c.Case(cs.JSON())
+				nExh++
+			}
+		}
+	}
 	c.Extra["exhaustive_cases"] = nExh
 	// (iv) seeded random larger cases
 	n := 8000
@@ -536,7 +621,16 @@ func generate(c *drv.Ctx) {
 		n = 150000
 	}
 	for i := 0; i < n; i++ {
-		c.Case(randomCase(c, reps).JSON())
+		cs := randomCase(c, reps)
+		if i%4 == 0 {
+			// a random history: further operations on the same Runtime (same base path, host, runtime schemes)
+			cs.Steps = []Step{{Pat: cs.Pat, Vals: cs.Vals, CQ: cs.CQ, OS: cs.OS, Orders: cs.Orders, Reps: cs.Reps}}
+			for k, m := 0, 1+c.Rng.Intn(4); k < m; k++ {
+				o := randomCase(c, reps)
+				cs.Steps = append(cs.Steps, Step{Pat: o.Pat, Vals: o.Vals, CQ: o.CQ, OS: o.OS, Orders: o.Orders, Reps: o.Reps})
+			}
+		}
+		c.Case(cs.JSON())
 	}
 }
 
